@@ -221,6 +221,11 @@ class Model:
         try:
             with _deadline(10):
                 r = f.decode(d, via, fmt)
+            if f.wiring in ("config", "configfmt"):
+                # the Discriminator is the user's object (it may be shared with other hierarchies): it must stay as written
+                dobj = f.ctx.ns["Base"].Config.discriminator
+                if (dobj.field, dobj.include_subtypes, dobj.include_supertypes) != tuple(self.st[:3]):
+                    return ("exc", f"user-Discriminator-object-altered:{dobj!r}")
             return ("ok", (type(r).__name__, tuple((fl.name, getattr(r, fl.name)) for fl in dataclasses.fields(r))))
         except RecursionError:
             return ("exc", "RecursionError")
